@@ -181,7 +181,7 @@ def run_trees(tier, rep, seed):
     plan = []
     if tier == "quick":
         plan.append((1, 1, 0))
-        plan.append((2, 25, seed))
+        plan.append((2, 40, seed))
     else:
         plan.append((1, 1, 0))
         plan.append((2, 1, 0))
